@@ -79,6 +79,7 @@ pub fn on_big_stack<R: Send + 'static>(f: impl FnOnce() -> R + Send + 'static) -
 pub fn child_main(args: &[String]) -> i32 {
     match args.first().map(|s| s.as_str()) {
         Some("c01") => c01::child_main(args),
+        Some("c01-trace") => c01::trace_main(),
         _ => 2,
     }
 }
